@@ -28,17 +28,18 @@ def headerFlag (h : Option Comp) : Bool :=
   | some c => c.text.isSome
   | none => false
 
-/-! `s.1` is the function's only local variable, the running count — by position, so that renaming it changes nothing. -/
+/-! `s.v0` is the function's first (and only) local variable, the running count; the translator names locals by order of
+first binding, so renaming it in the Python source changes nothing. -/
 
 theorem loop2_step (sb hs fn src sec) (s : St) (h : Option Comp) :
-    (loop2 sb hs fn src sec s h).1 = s.1 + (if headerFlag h then 1 else 0) := by
+    (loop2 sb hs fn src sec s h).v0 = s.v0 + (if headerFlag h then 1 else 0) := by
   cases h with
   | none => simp [loop2, headerFlag]
   | some c => cases ht : c.text <;> simp [loop2, headerFlag, ht]
 
 theorem loop2_all (sb hs fn src sec) (l : List (Option Comp)) (s : St) :
-    (l.foldl (loop2 sb hs fn src sec) s).1 =
-      s.1 + Int.ofNat ((l.map headerFlag).filter id).length := by
+    (l.foldl (loop2 sb hs fn src sec) s).v0 =
+      s.v0 + Int.ofNat ((l.map headerFlag).filter id).length := by
   induction l generalizing s with
   | nil => simp
   | cons h t ih =>
@@ -47,13 +48,13 @@ theorem loop2_all (sb hs fn src sec) (l : List (Option Comp)) (s : St) :
 
 /-- one section: `if section_headers:` only skips a loop that would not run anyway -/
 theorem loop1_step (sb hs fn src) (s : St) (sec : List (Option Comp)) :
-    (loop1 sb hs fn src s sec).1 =
-      s.1 + Int.ofNat ((sec.map headerFlag).filter id).length := by
+    (loop1 sb hs fn src s sec).v0 =
+      s.v0 + Int.ofNat ((sec.map headerFlag).filter id).length := by
   rcases sec with _ | ⟨a, t⟩ <;> simp [-List.foldl_cons, loop1, loop2_all]
 
 theorem loop1_all (sb hs fn src) (l : List (List (Option Comp))) (s : St) :
-    (l.foldl (loop1 sb hs fn src) s).1 =
-      s.1 + Int.ofNat ((l.flatten.map headerFlag).filter id).length := by
+    (l.foldl (loop1 sb hs fn src) s).v0 =
+      s.v0 + Int.ofNat ((l.flatten.map headerFlag).filter id).length := by
   induction l generalizing s with
   | nil => simp
   | cons h t ih =>
